@@ -193,8 +193,8 @@ def backend_lit(d, pool):
     return pool.ref("(mk %s %s %s %s %s %s)" % (d["kind"], " ".join(col(c) for c in d["q"]), o(d["dt"]), basis, es(d["ecr"]), es(d["cx"])), "backend N N", threshold=0)
 
 
-def run_impl(DP, backend, layout, T):
-    dp = DP(list(layout))
+def run_impl(DP, backend, layout, T, dp=None):
+    dp = DP(list(layout)) if dp is None else dp
     try:
         with quiet(), warnings.catch_warnings():
             warnings.simplefilter("ignore")
@@ -421,6 +421,36 @@ def main(argv):
                 oracle_fail = ({"backend": label, "layout": lay, "not_a_backend": True}, "an object that is not a backend (%s) was not rejected with ValueError but gave %s" % (label, res["outcome"]))
             cases.append({"family": "not_a_backend", "domain": True, "desc": describe(obj, T), "layout": lay, "res": res, "replay": {"backend": label, "layout": lay, "not_a_backend": True}})
 
+    # ONE DeviceParameters object imports several backends one after another (supported, unsupported, another supported one), and
+    # imported tables are edited in place between imports: every import is a function of (backend, layout) only
+    try:
+        seqs = []
+        sup = [nm for nm in names if nm in QUICK][:6] or list(names)[:4]
+        uns = [lab for lab, mkb, basis, base in synth if basis is not None and not any(g in ("ecr", "cx") for g in basis)]
+        for rep in range(4 if ck.tier == "quick" else 16):
+            lay = rng.choice([[0], [1, 0], [0, 1, 2], [2, 0]])
+            order = [("b", rng.choice(sup)), ("s", rng.choice(uns)) if uns else ("b", rng.choice(sup)), ("b", rng.choice(sup)), ("b", rng.choice(sup))]
+            dp = DP(list(lay))
+            for kind, nm in order:
+                if kind == "b":
+                    b = make_backend(nm); basis = None; ob = b
+                else:
+                    lab, mkb, basis, base = next(x for x in synth if x[0] == nm); b = mkb(); ob = make_backend(base) if base else b
+                res = run_impl(DP, b, lay, T, dp=dp)
+                try:
+                    verdict, text = oracle(ob, lay, res, basis=basis)
+                except Exception as e:  # noqa
+                    verdict, text = "outside", str(e)
+                ck.count("reused_object_sequence", 1, key=(rep, nm, tuple(lay)))
+                if verdict == "violation" and oracle_fail is None:
+                    oracle_fail = ({"backend": nm, "layout": lay, "sequence": [x[1] for x in order], "reused_object": True}, "on a DeviceParameters object that imported other backends before: " + text)
+                if res["outcome"] == "ok":     # the user edits the imported tables in place (ablation) before the next import
+                    for f in ("p_int", "t_int"):
+                        a = getattr(dp, f)
+                        if isinstance(a, np.ndarray) and a.size:
+                            a[...] = 0.125
+    except Exception as e:  # noqa
+        ck.notes.append("reused-object family could not run: %s: %s" % (type(e).__name__, str(e)[:120]))
     if oracle_fail:
         rp, text = oracle_fail
         ck.report("oracle", "calibration import violated: %s (backend %s, layout %s)" % (text, rp.get("synthetic", rp["backend"]), rp["layout"]), {"case": rp, "why": text})
